@@ -17,9 +17,11 @@ IsEvent(e) == l <= Len(TraceLog) /\ TraceLog[l].ev = e /\ l' = l + 1
 RECURSIVE JoinStr(_,_)
 JoinStr(s, i) == IF i > Len(s) THEN "" ELSE s[i] \o JoinStr(s, i + 1)
 \* one verdict per (rule URL, request URL) pair: "" = conforms
-PairVerdict(e, c, r, cr, i) ==
+\* a disagreement with layer P is a known deviation only when the code-shaped model predicts the observed result
+PairVerdict(e, c, r, cr, rf, i) ==
   LET v == Univ[i] IN
-  IF CleanKeys(v, c) /\ e.m[i] # (cr = Canonical(v, c)) THEN DeviationClass(r, v, c)
+  IF CleanKeys(v, c) /\ e.m[i] # (cr = Canonical(v, c))
+  THEN (IF e.m[i] = (rf = ReqForm(v, c)) THEN DeviationClass(r, v, c) ELSE "url_match_wrong")
   ELSE IF e.m[i] /\ e.locs[i] # "/t" \o (IF SkippedParams(v, c) = <<>> THEN "" ELSE "?" \o JoinStr(SkippedParams(v, c), 1)) THEN "marketing_params_forwarding"
   ELSE IF ~(e.idem[i][1] /\ e.idem[i][2] = e.m[i]) THEN "rebuild_not_idempotent"
   ELSE ""
@@ -33,7 +35,7 @@ TraceUrl ==
          rf == RuleForm(r, c)
          cr == Canonical(r, c)
          judged == CleanKeys(r, c) /\ RuleSpace(r, c)
-         bad == IF judged THEN {<<i, PairVerdict(e, c, r, cr, i)>> : i \in 1..Len(Univ)} \ {<<i, "">> : i \in 1..Len(Univ)} ELSE {}
+         bad == IF judged THEN {<<i, PairVerdict(e, c, r, cr, rf, i)>> : i \in 1..Len(Univ)} \ {<<i, "">> : i \in 1..Len(Univ)} ELSE {}
          classes == {b[2] : b \in bad}
          drift == {i \in 1..Len(Univ) : PairDrift(e, c, r, rf, i)}
      IN /\ Drift(e.rule_norm = JoinStr(rf, 1), "rule_form")
